@@ -248,7 +248,96 @@ let predict_hookn (f : string list) (obs : string) : string * string * bool =
       (pred, verdict ok "a product was not built from its own freshly decoded config (nested plugin)", kk > 1)
   | _ -> ("unknown-case", "BAD:unknown-case", false)
 
+(* nest cases: overlapping creations of the same registered entry *)
+let s_round (r : reround) =
+  let (ie, io) = r.re_inner in
+  String.concat " " (List.map s_ev r.re_before @ ["["] @ List.map s_ev ie @ ["=>"; s_out io; "]"] @ List.map s_ev r.re_after)
+  ^ " => " ^ s_out r.re_out
+
+let canon_nest (ob : nest_obs) : nest_obs =
+  let tbl = Hashtbl.create 16 in
+  let id (n : nat) : nat =
+    let k = int_of_nat n in
+    match Hashtbl.find_opt tbl k with
+    | Some v -> v
+    | None -> let v = nat_of_int (Hashtbl.length tbl) in Hashtbl.add tbl k v; v in
+  let arg = function AConf c -> AConf { c with c_id = id c.c_id } | a -> a in
+  let ev = function
+    | EvFill (n, FTConf i, v) -> EvFill (n, FTConf (id i), v)
+    | EvCtor (n, a) -> EvCtor (n, arg a)
+    | e -> e in
+  let out = function OOk p -> OOk { p with p_arg = arg p.p_arg } | o -> o in
+  let evs l = List.map ev l in
+  let op (e, o) = let e' = evs e in (e', out o) in
+  let round r =
+    let b = evs r.re_before in let i = op r.re_inner in let a = evs r.re_after in
+    { re_before = b; re_inner = i; re_after = a; re_out = out r.re_out } in
+  match ob with
+  | NestNew rounds -> NestNew (List.map round rounds)
+  | NestFactory (cev, ci, ce, rounds) ->
+      let cev' = evs cev in let ci' = op ci in NestFactory (cev', ci', ce, List.map round rounds)
+
+let s_nest = function
+  | NestNew rounds -> String.concat " | " ("nestnew" :: List.map s_round rounds)
+  | NestFactory (cev, (ie, io), ce, rounds) ->
+      String.concat " | "
+        ((String.concat " " (["nestfac"] @ List.map s_ev cev @ ["["] @ List.map s_ev ie @ ["=>"; s_out io; "]"])
+          ^ " => " ^ (match ce with None -> "ok" | Some e -> "err:" ^ s_err e)) :: List.map s_round rounds)
+
+(* "<before> [ <inner evs> => <inner out> ] <after>" *)
+let p_nested (s : string) : event list * op * event list =
+  match split_on_str " [ " (" " ^ s) with
+  | [b; rest] ->
+      (match split_on_str " ]" rest with
+       | [inner; a] ->
+           let toks x = List.filter (fun t -> t <> "") (String.split_on_char ' ' x) in
+           (List.map p_ev (toks b), p_op inner, List.map p_ev (toks a))
+       | _ -> raise (Unparsable ("nested " ^ s)))
+  | _ -> raise (Unparsable ("nested " ^ s))
+
+let p_round (s : string) : reround =
+  (* the outer outcome follows the LAST " => " *)
+  let parts = split_on_str " => " s in
+  let n = List.length parts in
+  if n < 2 then raise (Unparsable ("round " ^ s)) else
+  let out = List.nth parts (n - 1) in
+  let body = String.concat " => " (List.filteri (fun i _ -> i < n - 1) parts) in
+  let (b, i, a) = p_nested body in
+  { re_before = b; re_inner = i; re_after = a; re_out = p_out out }
+
+let p_nest (s : string) : nest_obs =
+  match split_on_str " | " s with
+  | "nestnew" :: rounds -> NestNew (List.map p_round rounds)
+  | h :: rounds when String.length h > 8 && String.sub h 0 8 = "nestfac " ->
+      let parts = split_on_str " => " (after h 8) in
+      let n = List.length parts in
+      if n < 2 then raise (Unparsable "creation") else
+      let res = List.nth parts (n - 1) in
+      let body = String.concat " => " (List.filteri (fun i _ -> i < n - 1) parts) in
+      let (b, i, a) = p_nested body in
+      if a <> [] then raise (Unparsable "creation constructs") else
+      let ce = (if res = "ok" then None
+                else if String.length res > 4 && String.sub res 0 4 = "err:" then Some (p_err (after res 4))
+                else raise (Unparsable ("creation " ^ res))) in
+      NestFactory (b, i, ce, List.map p_round rounds)
+  | _ -> raise (Unparsable "observation")
+
+let predict_nest (f : string list) (obs : string) : string * string * bool =
+  match f with
+  | "nest" :: _mode :: rest ->
+      let (cs, o) = case_of ("c18" :: (match rest with
+                       | [ret; cfg; cerr; perr; def; rt; req; k; ff; cf; pf] -> [ret; cfg; cerr; perr; def; rt; req; "1"; k; ff; cf; pf]
+                       | _ -> raise (Unparsable "case"))) in
+      let pred = s_nest (canon_nest (run_nest cs.cs_shape cs.cs_req o cs.cs_k)) in
+      let v =
+        (match p_nest obs with
+         | ob -> verdict (nest_b cs.cs_shape cs.cs_req o ob) "a creation overlapping another one of the same entry was not built from its own config"
+         | exception Unparsable what -> "BAD:outside-the-model(" ^ what ^ ")") in
+      (pred, v, true)
+  | _ -> ("unknown-case", "BAD:unknown-case", false)
+
 let predict (c : string) (obs : string) : string * string * bool =
+  if String.length c > 5 && String.sub c 0 5 = "nest " then predict_nest (split_blank c) obs else
   if String.length c > 5 && String.sub c 0 5 = "hook " then predict_hook (split_blank c) obs else
   if String.length c > 6 && String.sub c 0 6 = "hookn " then predict_hookn (split_blank c) obs else
   let (cs, o) = case_of (split_blank c) in
